@@ -274,6 +274,19 @@ impl ClientLoop {
         request: &mut Request,
         tx_id: TxId,
     ) -> Result<(), RequestError> {
+        // frames received while no request was outstanding are not replies to this one:
+        // drop whatever has already arrived before transmitting
+        loop {
+            tokio::select! {
+                biased;
+                frame = self.reader.next_frame(io, self.decode) => {
+                    frame?;
+                    tracing::warn!("discarding frame received while no request was outstanding");
+                }
+                _ = std::future::ready(()) => break,
+            }
+        }
+
         let bytes = self.writer.format_request(
             FrameHeader::new_tcp_header(request.id, tx_id),
             request.details.function(),
